@@ -73,14 +73,37 @@ def exists_nodes(e, neg=False):
             yield from exists_nodes(x)
 
 
+def bound_before(root, node):
+    """Variables that are certainly bound when `node` is evaluated: those of quantifier-free left operands of the and_ nodes on
+    the path from the root to the node."""
+    if root is node or not isinstance(root, list) or not root:
+        return set()
+    if root[0] == "and":
+        if contains_node(root[2], node):
+            left = kvars(root[1]) if not has_q(root[1]) else set()
+            return left | bound_before(root[2], node)
+        if contains_node(root[1], node):
+            return bound_before(root[1], node)
+    for x in root[1:]:
+        if isinstance(x, list) and contains_node(x, node):
+            return bound_before(x, node) if root[0] == "and" else set()
+    return set()
+
+
+def contains_node(e, node):
+    return e is node or (isinstance(e, list) and any(contains_node(x, node) for x in e[1:] if isinstance(x, list)))
+
+
 def f04_signature(cond, sel):
-    """Finding C01-F04: exists(v, c) reports one result per value of v and keeps only the first witness of the other
-    variables. Rows get lost when v is not selected, or when another variable of c is also needed outside this exists."""
+    """Finding C01-F04: exists(v, c) reports one result per value of v and keeps only the first witness of the other variables
+    of c. Rows get lost when v is not selected, or when another variable of c is selected or needed elsewhere and is not already
+    bound when the exists is evaluated."""
     for node, v, body in exists_nodes(cond):
         if v not in sel:
             return True
+        bound = bound_before(cond, node)
         for w in ("x", "y"):
-            if w != v and count_var(body, w) and count_var(cond, w, skip=node):
+            if w != v and count_var(body, w) and w not in bound and (w in sel or count_var(cond, w, skip=node)):
                 return True
     return False
 
@@ -114,6 +137,7 @@ def main():
     fams = [("logic", "EQLCore_gen_logic.cfg", 3000), ("logic6", "EQLCore_gen_logic6.cfg" if thorough else "EQLCore_gen_logic6_q.cfg", 400),
             ("access", "EQLCore_gen_access.cfg" if thorough else "EQLCore_gen_access_q.cfg", 400)]
     fams.append(("quant", "EQLCore_gen_quant.cfg" if thorough else "EQLCore_gen_quant_q.cfg", 400))
+    fams.append(("poset", "EQLCore_gen_poset.cfg" if thorough else "EQLCore_gen_poset_q.cfg", 350))
     if thorough:
         fams.append(("logic_d3", "EQLCore_gen_logic_d3.cfg", 2000))
     cases = []
@@ -121,6 +145,7 @@ def main():
         for i, c in enumerate(conditions(ctx, cfg, minimum)):
             c["variant"] = i % 6
             c["family"] = fam
+            c["reeval"] = fam != "quant" and i % 3 == 0        # every third condition is evaluated again after an in-place edit
             cases.append(c)
     results = replay("eql", cases)
     ctx.replayed = sum(len(c["cases"]) for c in cases)
@@ -130,12 +155,29 @@ def main():
             unsettled += 1
             continue
         for k, (cs, rows, err) in enumerate(zip(c["cases"], r["rows"], r["errors"])):
+            r2 = r["rows2"][k] if r.get("rows2") else None
+            # finding F02: a selected attribute expression of a variable that no condition binds is enumerated independently
+            # (when the satisfied branch of the condition leaves the variable unbound): only EXTRA rows, the consistent ones are all there
+            f02 = "x.a" in cs["sel"]
+            if r2 is not None:
+                exp2 = {tuple(x) for x in cs["exp2"]}
+                got2 = {tuple(x) for x in r2} if isinstance(r2, list) else r2
+                if got2 != exp2 and f02 and isinstance(got2, set) and exp2 <= got2:
+                    ctx.known_finding("C01-F02", {"cond": c["cond"], "dom": cs["dom"], "sel": cs["sel"], "after_edit": True})
+                elif got2 != exp2:
+                    ctx.violation({"family": c["family"], "cond": c["cond"], "dom": cs["dom"], "sel": cs["sel"], "variant": c["variant"],
+                                   "expected_after_edit": sorted(exp2), "observed_after_edit": sorted(got2) if isinstance(got2, set) else got2},
+                                  note="the same query object, evaluated again after an in-place edit of attribute values (o1.a := 1, o4.b := 0), "
+                                       "does not return the satisfying assignments of the edited world")
             exp = {tuple(x) for x in cs["exp"]}
             got = {tuple(x) for x in rows}
             key = [c["cond"], cs["dom"], cs["sel"]]
             ctx.case(key, size(c["cond"]) > 1 and bool(exp),
                      sample={"family": c["family"], "cond": c["cond"], "dom": cs["dom"], "sel": cs["sel"], "expected": sorted(exp),
                              "observed": sorted(got)})
+            if not err and f02 and exp < got:
+                ctx.known_finding("C01-F02", {"cond": c["cond"], "dom": cs["dom"], "sel": cs["sel"], "extra": sorted(got - exp)})
+                continue
             missing_only = not err and exp != got and not (got - exp) and c["family"] == "quant"
             if missing_only and f04_signature(c["cond"], cs["sel"]):
                 ctx.known_finding("C01-F04", {"cond": c["cond"], "dom": cs["dom"], "missing": sorted(exp - got)})
